@@ -1,11 +1,46 @@
-(* C18 — Event delivery is complete, ordered and logged once.
+(* C18 — Event delivery is complete, ordered and logged once; histories with RE-ENTRANT
+   listeners (scripts that Emit, Subscribe and InitLoggers from inside a running Emit, on any
+   handler including the one being emitted).
    Only statements, [exact] and [Print Assumptions] live here. *)
 From Coq Require Import List ZArith.
 From SR Require Import Model.Events Proofs.EventsProofs.
+Import ListNotations.
 
+(* every history, every listener script, every fuel; abnormal outcomes excluded explicitly *)
 Theorem C18_event_delivery : C18_statement.
 Proof. exact C18_holds. Qed.
 Print Assumptions C18_event_delivery.
+
+(* The delivery clause at full strength (after the repair 5106e78 of the three sorting
+   handlers): every emission of every history - listener scripts that Subscribe to the handler
+   being emitted included - reaches each listener subscribed when it was entered exactly once,
+   in the handler's order; the prefix up to the first canceller when cancelled. *)
+Theorem C18_delivery_exactly_once : C18_delivery_full.
+Proof. exact C18_delivery_full_holds. Qed.
+Print Assumptions C18_delivery_exactly_once.
+
+Theorem C18_no_listener_called_twice : forall fuel kinds ops w kids,
+  run fuel (init kinds) ops = Ok (w, kids) ->
+  Forall (fun fr => match fr with
+                    | Frame _ _ _ _ calls _ _ _ => NoDup (map (fun cl => l_id (call_l cl)) calls)
+                    end) (flat_map all_frames_child kids).
+Proof. exact delivery_no_duplicates. Qed.
+Print Assumptions C18_no_listener_called_twice.
+
+(* the history on which the unrepaired handlers called listeners 0, 0, 1 (corpus case
+   reentrant_subscribe_disturbs_running_emit), followed by one more emission: now 0, 1, 2,
+   and the listener subscribed meanwhile is reached, first, by the next emission *)
+Theorem C18_reentrant_subscribe_nonvacuous :
+  exists w kids,
+    run 2 (init disturb_kinds) (disturb_ops ++ [OEmit 0 8%Z]) = Ok (w, kids) /\
+    map (fun fr => match fr with Frame _ _ ls0 _ calls _ c _ =>
+                     (map l_id ls0, map (fun cl => l_id (call_l cl)) calls, c) end)
+        (flat_map all_frames_child kids)
+    = [([0; 1; 2], [0; 1; 2], false); ([3; 0; 1; 2], [3; 0; 1; 2], false)]%Z /\
+    trace w = [ISub 0 0 0; ISub 1 0 1; ISub 2 0 2;
+               IEmit 0 7; ICall 0 0 7; ISub 3 0 (-1); ICall 1 0 7; ICall 2 0 7; IRet 0 false 7;
+               IEmit 0 8; ICall 3 0 8; ICall 0 0 8; ICall 1 0 8; ICall 2 0 8; IRet 0 false 8]%Z.
+Proof. exact reentrant_subscribe_delivered. Qed.
 
 Theorem C18_mutable_listeners_see_earlier_changes :
   forall vin calls vout, threaded KMutable vin calls vout ->
@@ -21,11 +56,48 @@ Theorem C18_other_handlers_pass_value_unchanged :
 Proof. exact threaded_const. Qed.
 Print Assumptions C18_other_handlers_pass_value_unchanged.
 
+(* clause (2) of the statement read for distinct loggers: a completed emission is logged
+   exactly once by a logger registered at that moment, not at all by any other *)
+Theorem C18_registered_logger_logs_once :
+  forall lg h v c lgs, NoDup lgs -> In lg lgs -> ev_log lg (EDone h v c lgs) = [(h, v, c)].
+Proof. exact ev_log_registered. Qed.
+Print Assumptions C18_registered_logger_logs_once.
+
 Theorem C18_unregistered_logger_sees_nothing :
-  forall lg lgs, ~ In lg lgs -> forall fr, log_of lg (flatten lgs fr) = nil.
-Proof. exact unregistered_logger_sees_nothing. Qed.
+  forall lg h v c lgs, ~ In lg lgs -> ev_log lg (EDone h v c lgs) = [].
+Proof. exact ev_log_unregistered. Qed.
 Print Assumptions C18_unregistered_logger_sees_nothing.
 
-Theorem C18_nonvacuous : exists w frs, run 10 (init demo_kinds) demo_ops = Some (w, frs) /\
-  length frs = 2%nat /\ length (trace w) = 18%nat.
+(* the outcome [Stuck] (the listener loop reads outside its backing array) is unreachable *)
+Theorem C18_listener_loop_stays_inside_its_array :
+  forall fuel kinds ops, run fuel (init kinds) ops <> Err Stuck.
+Proof. exact run_never_stuck. Qed.
+Print Assumptions C18_listener_loop_stays_inside_its_array.
+
+(* the logging monitor that check.py evaluates on the implementation's traces accepts every
+   model run (so a rejection is a difference between code and model or a property violation) *)
+Theorem C18_log_monitor_accepts_every_model_run : forall fuel kinds ops w kids,
+  run fuel (init kinds) ops = Ok (w, kids) ->
+  SR.Model.EventsCheck.log_scan [] None (trace w) = true.
+Proof. exact log_monitor_accepts_model. Qed.
+Print Assumptions C18_log_monitor_accepts_every_model_run.
+
+(* non-vacuity on a re-entrant history: same-handler nested emission, Subscribe to the own
+   handler from inside the loop (mutable and simple), InitLoggers from inside a listener; per
+   emission: handler, listeners subscribed at entry, listeners called, cancelled *)
+Theorem C18_nonvacuous : exists w kids, run 10 (init demo_kinds) demo_ops = Ok (w, kids) /\
+  length (trace w) = 38%nat /\
+  length (flat_map all_frames_child kids) = 6%nat /\
+  map (fun fr => match fr with Frame h _ ls0 _ calls _ c _ =>
+                   (h, map l_id ls0, map (fun cl => l_id (call_l cl)) calls, c) end)
+      (flat_map all_frames_child kids)
+  = [(2%nat, [1; 0], [1; 0], false); (3%nat, [2; 3], [2; 3], true);
+     (2%nat, [1; 5; 0], [1; 5; 0], false); (3%nat, [2; 3], [2], true);
+     (0%nat, [4], [4], false); (0%nat, [4; 6], [4; 6], false)]%Z /\
+  log_of 101 (trace w) = [(3%nat, 7, true); (2%nat, 1, false); (2%nat, 42, false);
+                          (0%nat, 1, false); (3%nat, 9, true); (0%nat, 0, false)]%Z /\
+  log_of 100 (trace w) = [].
 Proof. exact demo_runs. Qed.
+
+Theorem C18_out_of_fuel_is_distinct : run 1 (init demo_kinds) demo_ops = Err OutOfFuel.
+Proof. exact demo_out_of_fuel. Qed.
